@@ -31,7 +31,7 @@ type c12mon struct {
 	ended      bool
 	worst      time.Duration
 	now        time.Duration
-	since      []string // client packets since the last broker-bound packet
+	since      []string      // client packets since the last broker-bound packet
 	clientK    time.Duration // the keep-alive the client announced last (its obligation while active)
 }
 
